@@ -551,6 +551,10 @@ func runC01(c *Ctx) {
 	ruleLineLimitCounting(c) // the limiter below the reader counts octet by octet, independent of read boundaries
 	ruleBudgetNotEarly(c)
 	ruleStreamLayersReadOnly(c)
+	// the limit the message's lines are measured against is the configured one: a handler that lowers it for the
+	// duration of the body makes the limiter drop part of a conforming message
+	c.R.Rule("R-linelimit-owners", "who-may-write", "lineLimitReader.LineLimit is armed by init() from the configuration and lifted only by handleBdat for the duration of a chunk; no DATA handler changes it", 1)
+	c.obWriters("lineLimitReader.LineLimit", "armed by init(), lifted for the duration of a chunk by handleBdat", "(*Conn).init", "(*Conn).handleBdat", "(*Client).setConn")
 }
 
 // ruleBudgetNotEarly (C01; the same two obligations are part of C06 R-limit-budget): with a size limit configured, a
